@@ -73,6 +73,7 @@ func VerifRendezvousInsertionOrderKeyLengths() {
 	n := verif.Bound("nodes_keylength", 2, 3)
 	labelBytes := verif.Bound("label_bytes", 4, 6)
 	maxKey := verif.Bound("max_key_bytes", 160, 288)
+	verif.Option("max_concretize", 400) // the key length is case-split over its whole range
 	verif.Note("hash = identity on the bytes written (collision-free), ScoreFunc = tie-free function of the hash value with case-split order; equal weights; the key's digits are fixed (ab..), its length is the unknown")
 	keyBytes := verif.Len("key_bytes", 0, maxKey)
 	key := strings.Repeat("ab", keyBytes)
